@@ -13,7 +13,7 @@ from __future__ import annotations
 
 import ast
 
-from .pyast import Unrecognised, clean, cstrs, find_class, find_def, is_logger_call, parse, unparse
+from .pyast import Unrecognised, clean, cstrs, find_class, find_def, if_chain, is_logger_call, parse, unparse
 
 KINDS = {"POSITIONAL_ONLY": "PosOnly", "POSITIONAL_OR_KEYWORD": "PosOrKw", "KEYWORD_ONLY": "KwOnly"}
 
@@ -58,6 +58,45 @@ def _kind_expr(node):
     raise Unrecognised(f"positional= expression {unparse(node)}")
 
 
+CKINDS = {"list": "KList", "dict": "KDict", "set": "KSet"}
+
+
+def _copied_kinds(test, subject):
+    """`isinstance(<subject>, (list, dict, set))` -> the container kinds that are wrapped into a deep-copying factory."""
+    if not (isinstance(test, ast.Call) and unparse(test.func) == "isinstance" and len(test.args) == 2 and not test.keywords
+            and unparse(test.args[0]) == subject):
+        raise Unrecognised(f"mutable-default test {unparse(test)}")
+    t = test.args[1]
+    elts = t.elts if isinstance(t, (ast.Tuple, ast.List)) else [t]
+    out = []
+    for e in elts:
+        if not (isinstance(e, ast.Name) and e.id in CKINDS):
+            raise Unrecognised(f"mutable-default test names {unparse(e)}")
+        out.append(CKINDS[e.id])
+    return out
+
+
+def _default_arms(stmt):
+    """main: `if parameter.default != empty: if isfunction: factory = default [elif isinstance(default, (list, dict, set)):
+    factory = partial(copy.deepcopy, default)] else: default = default`.  Returns the copied container kinds."""
+    if not (isinstance(stmt, ast.If) and unparse(stmt.test) == "parameter.default != inspect.Parameter.empty" and not stmt.orelse):
+        raise Unrecognised("main: default handling " + unparse(stmt)[:160])
+    inner = clean(stmt.body)
+    if len(inner) != 1:
+        raise Unrecognised("main: default handling has several statements")
+    arms, els = if_chain(inner[0])
+    if [unparse(x) for x in els] != ["default = parameter.default"]:
+        raise Unrecognised("main: plain default arm changed")
+    if not arms or unparse(arms[0][0]) != "inspect.isfunction(parameter.default)" \
+            or [unparse(x) for x in arms[0][1]] != ["default_factory = parameter.default"]:
+        raise Unrecognised("main: function-default arm changed")
+    if len(arms) == 1:
+        return []
+    if len(arms) == 2 and [unparse(x) for x in arms[1][1]] == ["default_factory = functools.partial(copy.deepcopy, parameter.default)"]:
+        return _copied_kinds(arms[1][0], "parameter.default")
+    raise Unrecognised("main: unrecognised default arm " + unparse(inner[0])[:300])
+
+
 def _main_facts(tree):
     main = find_def(tree, "main")
     deco = _nested_def(main, "_decorate_with_cli_args")
@@ -85,8 +124,7 @@ def _main_facts(tree):
     expected_loop = [
         "if parameter.annotation == inspect.Parameter.empty:\n    parameter = parameter.replace(annotation=Any)",
         "default, default_factory = (dataclasses.MISSING, dataclasses.MISSING)",
-        "if parameter.default != inspect.Parameter.empty:\n    if inspect.isfunction(parameter.default):\n"
-        "        default_factory = parameter.default\n    else:\n        default = parameter.default",
+        None,  # the default / default_factory decision, see _default_arms
         None,  # field = _Field(...)
         "fields.append(field)",
     ]
@@ -95,6 +133,7 @@ def _main_facts(tree):
     for got, want in zip(ltexts, expected_loop):
         if want is not None and got != want:
             raise Unrecognised(f"main: parameter loop statement changed: {got[:160]}")
+    main_copied = _default_arms(lbody[2])
     fstmt = lbody[3]
     if not (isinstance(fstmt, ast.Assign) and unparse(fstmt.targets[0]) == "field" and isinstance(fstmt.value, ast.Call)
             and unparse(fstmt.value.func) == "_Field" and len(fstmt.value.args) == 3 and not fstmt.value.keywords):
@@ -151,7 +190,7 @@ def _main_facts(tree):
         raise Unrecognised("main: keywords = collections.ChainMap(..)")
     if texts[-1] != "return function(*positionals, **keywords)":
         raise Unrecognised(f"main: final call {texts[-1]}")
-    return kwargs, pos_kinds, is_sorted, parsed_wins
+    return kwargs, pos_kinds, is_sorted, parsed_wins, main_copied
 
 
 def _field_named(tree):
@@ -295,6 +334,18 @@ def _config_for_facts(tree):
     req, opt = clean(last.body), clean(last.orelse)
     if len(req) != 2 or len(opt) != 2:
         raise Unrecognised("config_for: required/optional arms")
+    cf_copied = []
+    if isinstance(opt[0], ast.If):
+        # if isinstance(default, (list, dict, set)): field = field(default_factory=partial(copy.deepcopy, default), help=..)
+        # else: field = field(default=default, help=..)
+        c_body, c_else = clean(opt[0].body), clean(opt[0].orelse)
+        if len(c_body) != 1 or len(c_else) != 1 or not isinstance(c_body[0], ast.Assign) or unparse(c_body[0].targets[0]) != "field":
+            raise Unrecognised("config_for: mutable-default arm")
+        ckw = dict(_field_call_kwargs(c_body[0].value, "copied-default"))
+        if ckw != {"default_factory": "functools.partial(copy.deepcopy, default)", "help": "help_str"}:
+            raise Unrecognised(f"config_for: mutable-default field call {ckw}")
+        cf_copied = _copied_kinds(opt[0].test, "default")
+        opt = [c_else[0], opt[1]]
 
     def arm(stmts, what):
         s0, s1 = stmts
@@ -340,7 +391,7 @@ def _config_for_facts(tree):
     got = [unparse(x) for x in clean(gi.body)]
     if [a.arg for a in gi.args.args] != ["cls", "target"] or got != want:
         raise Unrecognised("_Partial.__getitem__ body changed: " + " | ".join(got)[:400])
-    return cached, skips, [k for k, _ in req_kws], [k for k, _ in opt_kws], req_where == "front", call_site_wins
+    return cf_copied, cached, skips, [k for k, _ in req_kws], [k for k, _ in opt_kws], req_where == "front", call_site_wins
 
 
 BTY = {"int": "TInt", "str": "TStr", "float": "TFloat", "bool": "TBool"}
@@ -393,15 +444,17 @@ def emit(repo: str) -> str:
     ca = _strip_logs(parse(repo, "simple_parsing/helpers/custom_actions.py"))
     fw = _strip_logs(parse(repo, "simple_parsing/wrappers/field_wrapper.py"))
     partial = _strip_logs(parse(repo, "simple_parsing/helpers/partial.py"))
-    main_kwargs, pos_kinds, is_sorted, parsed_wins = _main_facts(deco)
+    main_kwargs, pos_kinds, is_sorted, parsed_wins, main_copied = _main_facts(deco)
     named = _field_named(fields)
     bool_params = _bool_action_params(ca)
     _check_field_wrapper(fw)
-    cached, skips, req_kws, opt_kws, req_front, call_site_wins = _config_for_facts(partial)
+    cf_copied, cached, skips, req_kws, opt_kws, req_front, call_site_wins = _config_for_facts(partial)
     infer_rule = _infer_rule(partial)
     return (
         "From SPV Require Import Base.Str Model.Front.\nOpen Scope string_scope.\n"
         "Definition facts_gen : facts := {|\n"
+        f"  f_main_copied := [{'; '.join(main_copied)}];\n"
+        f"  f_cf_copied := [{'; '.join(cf_copied)}];\n"
         f"  f_infer := {infer_rule};\n"
         f"  f_main_kwargs := {cstrs(main_kwargs)};\n"
         f"  f_field_named := {cstrs(named)};\n"
